@@ -20,6 +20,7 @@ import (
 	"time"
 
 	"github.com/piotrnar/gocoin/lib/btc"
+	"github.com/piotrnar/gocoin/lib/chain"
 	"github.com/piotrnar/gocoin/lib/others/vhook"
 	"github.com/piotrnar/gocoin/lib/utxo"
 	"verif/lib/vlib"
@@ -43,6 +44,17 @@ func Child(seed int64, tier, stateFile string, rounds int, saveMs int, compress 
 	p.BIP34, p.BIP66, p.BIP65, p.CSV, p.Segwit, p.Taproot = 104, 105, 106, 107, 108, 109
 	s := chainsim.NewSim(run, r, p, dir, chainsim.NodeOpts{CompressUTXO: compress})
 	g := s.G
+
+	// chain.TrustedTxChecker as the client's txpool installs it: vouches for transactions it has verified already
+	var trustMu sync.Mutex
+	trusted := map[refchain.Hash]bool{}
+	chain.TrustedTxChecker = func(tx *btc.Tx) bool {
+		var h refchain.Hash
+		copy(h[:], tx.Hash.Hash[:])
+		trustMu.Lock()
+		defer trustMu.Unlock()
+		return trusted[h]
+	}
 
 	// snapshot observer: copy the file as soon as it is visible under its final name
 	var snapMu sync.Mutex
@@ -383,6 +395,46 @@ func Child(seed int64, tier, stateFile string, rounds int, saveMs int, compress 
 			maybeIdle(s, run, r)
 			if !checkSnaps() {
 				return
+			}
+		}
+		// 2c. what the client does with transactions it has already verified in its pool: chain.TrustedTxChecker vouches
+		// for some transactions of a block, so that no verifier is started for them. An invalid block whose error is
+		// found inside the transaction loop (unknown input) behind a big unverified transaction and a vouched one: the
+		// early return must still wait for the verifiers in flight before the block's memory is released.
+		if view2 := g.View(s.Ref.Tip); true {
+			h3 := s.Ref.Tip.Height + 1
+			av2 := g.Spendable(view2, h3, true)
+			if len(av2) >= 40 {
+				var big []refchain.OutPoint
+				var bigC []refchain.Coin
+				var in uint64
+				for _, op := range av2[:30] {
+					big = append(big, op)
+					bigC = append(bigC, view2[op])
+					in += view2[op].Value
+				}
+				u := g.Spend(big, bigC, []refchain.TxOut{g.OutTrue(in - 100)}, 2, 0, nil, -1)
+				tc := view2[av2[31]]
+				t := g.Spend([]refchain.OutPoint{av2[31]}, []refchain.Coin{tc}, []refchain.TxOut{g.OutTrue(tc.Value - 10)}, 2, 0, nil, -1)
+				var ghost refchain.OutPoint
+				copy(ghost.Hash[:], r.Bytes(32))
+				x := g.Spend([]refchain.OutPoint{ghost}, []refchain.Coin{{Value: 1000, Script: []byte{0x51}}}, []refchain.TxOut{g.OutTrue(900)}, 2, 0, nil, -1)
+				valid := r.Intn(3) == 0
+				txs3 := []*refchain.Tx{u, t}
+				fees3 := uint64(110)
+				fam3 := "vouched-tx/valid"
+				if !valid {
+					txs3 = append(txs3, x)
+					fam3 = "vouched-tx/unknown-input-behind-it"
+				}
+				trustMu.Lock()
+				trusted[t.TxID()] = true
+				trustMu.Unlock()
+				if _, ok := offer(g.Build(chainsim.BlockSpec{Parent: s.Ref.Tip, Txs: txs3, Fees: fees3}), fam3); !ok {
+					return
+				}
+				run.Inc("blocks_with_a_vouched_transaction")
+				maybeIdle(s, run, r)
 			}
 		}
 		// 3. a small block tree (forks, reorgs, invalid branches) with idle calls inside
